@@ -726,6 +726,47 @@ func init() {
 		}
 		return false
 	}
+	// Python binary code: structured arrays whose elements are not plain fixed-layout numbers (an optional,
+	// a date/time/datetime, or a record with a field that is anything but a number, bool, complex,
+	// or a nested record / fixed vector / fixed array of those) - the dtypes the serializers, get_dtype
+	// and the readers use for such elements do not agree with each other
+	ShapeSwitches["array-of-nonplain-struct"] = func(e *Env, t *Type) bool {
+		if t.Kind != KArray || !ShapeSwitches["array-of-struct"](e, t) {
+			return false
+		}
+		var plain func(x *Type, depth int) bool
+		plain = func(x *Type, depth int) bool {
+			u := e.underlyingSafe(x)
+			if u == nil || depth > 6 {
+				return false
+			}
+			switch u.Kind {
+			case KPrim:
+				return IsIntPrim(u.Prim) || u.Prim == "bool" || strings.HasPrefix(u.Prim, "float") || strings.HasPrefix(u.Prim, "complex")
+			case KVector:
+				return u.Len != nil && plain(u.Elem, depth+1)
+			case KArray:
+				return u.IsFixedArray() && plain(u.Elem, depth+1)
+			case KRef:
+				d := e.Lookup(u.Ns, u.Name)
+				if d == nil || d.Kind != DRecord || len(u.Args) > 0 || len(d.TypeParams) > 0 {
+					return false
+				}
+				for _, f := range d.Fields {
+					if !plain(f.Type, depth+1) {
+						return false
+					}
+				}
+				return true
+			}
+			return false
+		}
+		u := e.underlyingSafe(t.Elem)
+		if u == nil || u.Kind != KRef {
+			return true // optional, date/time/datetime elements
+		}
+		return !plain(t.Elem, 0)
+	}
 	// Python: a union passed directly as a generic type argument gets no usable class name
 	// (import fails with "Cannot find dtype", or the generated code refers to a missing attribute)
 	ShapeSwitches["union-as-generic-arg"] = func(e *Env, t *Type) bool {
